@@ -1,0 +1,31 @@
+//go:build verif && !windows
+// +build verif,!windows
+
+package localfs
+
+import (
+	"os"
+	"syscall"
+	"time"
+)
+
+// This file exists only under the "verif" build tag. It lets the
+// verification harness in /verif ask localfs for the QID path of synthetic
+// (device, inode) pairs: real files almost never carry device or inode
+// numbers outside the compact encoding, so that branch of localToQid cannot
+// be reached from a temporary directory. Nothing here is compiled into normal
+// builds.
+
+type verifFileInfo struct{ st syscall.Stat_t }
+
+func (verifFileInfo) Name() string       { return "verif" }
+func (verifFileInfo) Size() int64        { return 0 }
+func (verifFileInfo) Mode() os.FileMode  { return 0 }
+func (verifFileInfo) ModTime() time.Time { return time.Time{} }
+func (verifFileInfo) IsDir() bool        { return false }
+func (v verifFileInfo) Sys() interface{} { return &v.st }
+
+// VerifLocalToQID returns the QID path localfs assigns to (dev, ino).
+func VerifLocalToQID(dev, ino uint64) (uint64, error) {
+	return localToQid("", verifFileInfo{st: syscall.Stat_t{Dev: dev, Ino: ino}})
+}
